@@ -360,5 +360,31 @@ func c19CLI(w *Worker, c *c19Case, expectFail bool, libOut []byte, bad func(kind
 	}
 	if !bytes.Equal(after, libOut) {
 		bad("cli-output-differs", fmt.Sprintf("the CLI reports success but writes another file than the generator called in-process on the same text: %s", firstDiff(libOut, after)))
+		return
+	}
+	// the same once more the way a user types it: relative paths, and the drawing option with a
+	// picture in a subdirectory (whole files, Go and TypeScript)
+	if strings.HasPrefix(c.Origin, "whole:") && (c.Variant == gen.Go || c.Variant == gen.TS) {
+		os.WriteFile(outp, []byte(sentinel), 0o644)
+		os.MkdirAll(filepath.Join(dir, "doc"), 0o755)
+		args2 := append([]string{"generate", "-g", "doc/automaton.png"}, flags[c.Variant]...)
+		args2 = append(args2, "in.y", "out.txt")
+		ctx2, cancel2 := context.WithTimeout(context.Background(), 120*time.Second)
+		defer cancel2()
+		cmd2 := evid.Guarded(ctx2, 60, dir, nil, nativeBin, args2...)
+		if f, err := os.Create(filepath.Join(dir, "stdout2")); err == nil {
+			defer f.Close()
+			cmd2.Stdout, cmd2.Stderr = f, f
+		}
+		err2 := cmd2.Run()
+		w.Count("cli_runs_relative_paths_with_graph", 1)
+		after2, _ := os.ReadFile(outp)
+		if err2 == nil && !bytes.Equal(after2, libOut) {
+			where := ""
+			if _, e := os.Stat(filepath.Join(dir, "doc", "out.txt")); e == nil {
+				where = " (a file out.txt appeared in the picture's directory)"
+			}
+			bad("cli-output-not-at-the-given-path", fmt.Sprintf("`yaccgo generate -g doc/automaton.png ... in.y out.txt` exits 0 but out.txt does not hold the generated parser%s: %s", where, firstDiff(libOut, after2)))
+		}
 	}
 }
